@@ -32,8 +32,15 @@ statements) are modelled call by call as `opTypeOps` / `opJsOps`; the theorems a
 (projection = `opTypeSites` / `opJsSites`, nothing inside a type is mapped, text = the C01/C09/C12/C14 models' file,
 `operation_names_have_segments_full` without the projection hypothesis of `operation_names_have_segments` below).
 
-OPEN — carried by K/O only: plugins of the resolver printer; that the positions recorded in the AST are token starts in the
-source text (C07's parser model / the end-to-end O of `c06.rs`).
+OPEN — carried by K/O only: plugins of the resolver printer (K `sites:resolvers` runs the printer with an empty plugin list;
+the end-to-end O runs projects with the model plugin); that the positions recorded in the AST are token starts in the
+source text (C07's parser model / the end-to-end O of `c06.rs`; violated after astral characters, open known finding
+`e2e:original-column-counts-code-points`); the selection-set position of each operation is an INPUT of the model (`sps`: the
+shared AST does not carry it, K passes the real AST's; for a missing entry the model uses the default position,
+`ExecNode.selDefault`); `site_source_index_in_sources` is about the operation mapper of `FileMap` only (the schema-file
+mapper `fileIndicesSchema` is compared by K, no theorem); that the CLI's mapper covers the file of every node of the document
+it prints (`FilesInMapper`, the hypothesis of `printer_calls_do_not_panic`) is not derived from `file_remap_in_range` here;
+the indentation width (OPEN block of `Props/C06Bodies.lean`).
 -/
 namespace NitroVerif.PrintMap
 open NitroVerif.Gql NitroVerif.DeclCfg NitroVerif.SchemaDecls NitroVerif.SourceMap
